@@ -80,7 +80,8 @@ Section Comp.
     - ok_step H. destruct (IHx1 _ _ _ _ Hp Hg E). eapply IHx2; eauto.
     - ok_step H. ok_step H. inv H. destruct (IHx1 _ _ _ _ Hp Hg E) as [H1 G1]. destruct (IHx2 _ _ _ _ Hp G1 E0) as [H2 G2]. split; auto.
       eapply pop_ok_incl. apply dedup_id_incl. apply pop_ok_app; auto.
-    - ok_step H. ok_step H. inv H. destruct (IHx2 _ _ _ _ Hp Hg E) as [H2 G2]. destruct (IHx1 _ _ _ _ Hp G2 E0) as [H1 G1]. split; auto. apply pop_ok_filter; auto.
+    - ok_step H. ok_step H. inv H. destruct (IHx2 _ _ _ _ Hp Hg E) as [H2 G2]. destruct (IHx1 _ _ _ _ Hp G2 E0) as [H1 G1]. split; auto.
+      eapply pop_ok_incl. apply dedup_id_incl. apply pop_ok_filter; auto.
     - ok_step H. ok_step H. inv H. destruct (IHx1 _ _ _ _ Hp Hg E) as [H1 G1]. destruct (IHx2 _ _ _ _ Hp G1 E0) as [H2 G2]. split; auto. apply pop_ok_app; auto.
     - ok_step H. ok_step H. inv H. destruct (IHx2 _ _ _ _ Hp Hg E) as [H2 G2]. destruct (IHx1 _ _ _ _ Hp G2 E0) as [H1 G1]. split; auto. apply pop_ok_filter; auto.
     - ok_step H. ok_step H. inv H. destruct (IHx1 _ _ _ _ Hp Hg E) as [H1 G1]. destruct (IHx2 _ _ _ _ Hp G1 E0) as [H2 G2]. split; auto.
